@@ -296,10 +296,22 @@ def pre_pipeline(ctx, yaw, root):
                 f.create_dataset(cname, data=df[cname].to_numpy())
             f.create_dataset("z", data=df["z"].to_numpy()[:-2])
         cases["unequal_length_hdf5"] = lambda p, W=W, h5=h5: yaw.Catalog.from_file(p, h5, **cols, patch_centers=pipeline.centres(yaw, False), max_workers=W, chunksize=2)
+        # a column LONGER than the others, with a chunk size that divides the length of the shorter ones (no chunk slice
+        # ever straddles the end of the short columns)
+        for cs in (2, 3, 6):
+            for longcol in ("z", "w", "dec"):
+                h5l = root / f"longer{W}_{cs}_{longcol}.hdf5"
+                with h5py.File(h5l, "w") as f:
+                    for cname in ("ra", "dec", "w", "z"):
+                        col = df[cname].to_numpy()
+                        f.create_dataset(cname, data=np.concatenate([col, col[:3]]) if cname == longcol else col)
+                cases[f"unequal_length_hdf5_longer_{longcol}_chunksize_divides#{cs}"] = (
+                    lambda p, W=W, h5l=h5l, cs=cs: yaw.Catalog.from_file(p, h5l, **cols, patch_centers=pipeline.centres(yaw, False), max_workers=W, chunksize=cs))
         cases["too_many_centres"] = lambda p, W=W: yaw.Catalog.from_dataframe(
             p, df, **cols, patch_centers=yaw.AngularCoordinates(np.zeros((40000, 2))), max_workers=W)
         for name, fn in cases.items():
-            path = root / f"pp_{name}_{W}"
+            path = root / f"pp_{name.replace('#', '_')}_{W}"
+            name = name.split("#")[0]
             s, outcome = detrt.run_main(lambda: fn(path) and None, seed=1)
             ctx.evaluated(1, ("pre", name, W))
             if outcome[0] == "ok":
